@@ -697,6 +697,19 @@ class Data(Field):
                     except Exception as e:
                         byte_count = None
 
+                    # The callable may have computed its result from a field
+                    # that is Any (Any is equal to everything and it is true):
+                    # that count means nothing.
+                    if any(
+                        isinstance(getattr(pkt, name, None), Any)
+                        for name, f, _, _ in pkt.get_fields() if f is not self
+                    ):
+                        byte_count = None
+
+                # the count is unknown if it comes from a field that is Any
+                if not isinstance(byte_count, int) or byte_count < 0:
+                    byte_count = None
+
                 if byte_count is not None:
                     # TODO ignoring the custom regexp!!
                     fragments.append(
